@@ -95,6 +95,13 @@ type C11Case struct {
 	// flatten: which writing front end ("" = bs) and whether duplicate puts are de-duplicated
 	Writer string `json:"writer,omitempty"`
 	NoDup  bool   `json:"nodup,omitempty"`
+	// resume: the blocks put in each generation of a session on one file, how every generation but the last
+	// ends (one letter each: f = Finalize, d = abandoned without Finalize), and the further options of the session
+	Gens  [][]string `json:"gens,omitempty"`
+	Ends  string     `json:"ends,omitempty"`
+	Whole bool       `json:"whole,omitempty"`
+	V1    bool       `json:"v1,omitempty"`
+	Pad   bool       `json:"pad,omitempty"`
 }
 
 func permutations(n int, emit func([]int)) {
@@ -346,6 +353,10 @@ func runC11(c any, x *kit.Ctx) {
 	}
 	if cs.Kind == "insertion" {
 		runC11Insertion(cs, x)
+		return
+	}
+	if cs.Kind == "resume" {
+		runC11Resume(cs, x)
 		return
 	}
 	codec := codecOf(cs.Codec)
@@ -772,6 +783,19 @@ func runC11Flatten(cs C11Case, x *kit.Ctx) {
 		x.Fail("c11:flatten-write", "cannot write session: %v %v", err, res)
 		return
 	}
+	c11FinishedOracle(x, wk, res.Bytes, o, cs.Codec, cs.SID, blks,
+		fmt.Sprintf("flat|%v|%s|%v|%s|%v", cs.Seq, cs.Codec, cs.SID, wk, cs.NoDup))
+}
+
+// c11FinishedOracle: the finished CARv2 file of a writing session (its embedded index is the session index as
+// Finalize flattened it) against the index regenerated from that file with the session's options.
+func c11FinishedOracle(x *kit.Ctx, wk string, file []byte, o drv.Opts, codecName string, sid bool, blks []kit.Blk, ntKey string) {
+	type flattenCase struct {
+		Codec string
+		SID   bool
+	}
+	cs := flattenCase{Codec: codecName, SID: sid}
+	res := struct{ Bytes []byte }{file}
 	f, err := refcar.DecodeFile(res.Bytes, false)
 	if err != nil {
 		x.Fail("c11:flatten-decode", "finalized file malformed: %v", err)
@@ -862,8 +886,8 @@ func runC11Flatten(cs C11Case, x *kit.Ctx) {
 	}
 	x.State(fmt.Sprintf("flat|%x", f.IndexRaw))
 	x.Outcome(fmt.Sprintf("flatten repeats=%v", repeats))
-	if len(f.Index) >= 2 {
-		x.Nontrivial(fmt.Sprintf("flat|%v|%s|%v|%s|%v", cs.Seq, cs.Codec, cs.SID, wk, cs.NoDup))
+	if len(f.Index) >= 2 && ntKey != "" {
+		x.Nontrivial(ntKey)
 	}
 }
 
@@ -904,6 +928,7 @@ func genC11(tier string, emit func(any)) {
 			}
 		}
 	})
+	genC11Resume(tier, emit)
 }
 
 func init() {
@@ -914,15 +939,25 @@ func init() {
 		Decode: kit.DecodeAs[C11Case],
 		Rule: "every record multiset up to the bound over 17 records (4 hash codes, widths 0/1/20/32/64/65/2100, equal digests under different codes, duplicate digests at different offsets, exact duplicates, offsets up to 2^63) x ALL load-order permutations x both codecs; " +
 			"plus Flatten(session index) vs GenerateIndex(finished file) for every put history up to the bound; non-trivial = >=2 records. " +
+			"Writing sessions include RESUMED ones (a file reopened for writing: blockstore.OpenReadWrite by path, OpenReadWriteFile on one handle kept across generations, storage.OpenReadableWritable): every put history over the 12 flatten blocks up to the bound x every cut into 2 (and, one block shorter, 3) generations, empty generations included, " +
+			"x every way the earlier generations end (Finalize / abandoned without Finalize) x 3 front ends x both codecs x StoreIdentityCIDs x UseWholeCIDs x de-duplication on/off x WriteAsCarV1, the shortest histories also with data+index padding; plus a section at/one past each length-varint width boundary (127/128/16383/16384) in the generation resumed from, followed by a hashed or an IDENTITY block, under the full option cross with and without padding. " +
+			"At every Finalize of such a session (first, intermediate, last generation): Index() flattened into BOTH codecs just before Finalize vs GenerateIndex(finished file, the session's options): lookups of every alphabet/put key, bytes (exact unless two indexed sections share digest bytes, else up to the order inside equal-digest runs), and vs the reference index of the payload's sections; for CARv2 the embedded index additionally goes through the whole single-generation oracle. All generations of a session use the same roots and options (sessions that change options between generations are not enumerated: the statement does not say which options the regeneration takes then). " +
 			"Oracles follow the statement only: errors are compared by class (errors.Is ErrNotFound), never by text; the order inside a run of equal digests/multihashes is open everywhere (bytes after a round trip, ForEach before/after); " +
 			"a multiset with an exact duplicate may serialize/answer as the multiset or as its de-duplicated set (the same choice in every load order); the digest-only codec is not compared with the reference enumeration; " +
 			"lookups of the in-memory insertion index are bounded (recorded under the multihash <= answer <= recorded under the digest); reordering of the caller's slice by Load and a refusal of a reader whose Seek fails are recorded as beyond-statement outcomes",
 		Bound: func(tier string) map[string]any {
+			rb := c11ResumeBoundOf(tier)
+			resume := map[string]any{"blocks": len(c11ResumeNames), "history_len_2_generations": rb.histLen, "history_len_3_generations": rb.histLen3, "history_len_with_padding": rb.padHistLen,
+				"cuts": "all, empty generations included", "earlier_generations_end": "Finalize|abandoned, all words", "front_ends": c11ResumeWriters,
+				"options":           "codec{sorted,mh} x StoreIdentityCIDs x UseWholeCIDs x dedup on/off x WriteAsCarV1 (full cross), padding {none, data 3 + index 2}",
+				"boundary_sections": c11ResumeSizes}
 			if tier == "thorough" {
-				return map[string]any{"multiset_size": 5, "records": 17, "permutations": "all", "flatten_history_len": 3}
+				return map[string]any{"multiset_size": 5, "records": 17, "permutations": "all", "flatten_history_len": 3, "resumed_sessions": resume}
 			}
-			return map[string]any{"multiset_size": 4, "records": 17, "permutations": "all", "flatten_history_len": 2}
+			return map[string]any{"multiset_size": 4, "records": 17, "permutations": "all", "flatten_history_len": 2, "resumed_sessions": resume}
 		},
-		Assumptions: []string{"refcar index codec is correct", "a record repeated exactly (same multihash, same offset) carries no information the statement requires to be kept twice"},
+		Assumptions: []string{"refcar index codec is correct", "a record repeated exactly (same multihash, same offset) carries no information the statement requires to be kept twice",
+			"a file reopened for writing with the roots and options it was written with is a writing session of the statement; the index its Index() accessor hands out just before Finalize is the session index that Finalize flattens",
+			"refcar's section scan of the finished payload is correct (used to decide whether two indexed sections share a digest and as the reference index of a resumed session)"},
 	})
 }
